@@ -184,14 +184,62 @@ example : demo64File.sliceChk 256 0 1 = .ok ⟨240, 16, 1⟩ ∧ demo64File.slic
 /-! ### `Headers::check_sum` -/
 
 /-- the checked checksum (u64 additions, `dwords[i]`, `&image[n * 4..]`, `last[..tail.len()]`,
-`copy_from_slice`, `as u32`) never panics and is the model's checksum -/
-theorem C02_checkSum_checked_eq (v : View) (hb : v.b.size < 4294967296) : v.checkSumChk = .ok v.checkSum :=
-  checkSumChk_eq v hb
+`copy_from_slice`, `as u32`) never panics and is the model's checksum.
 
-theorem C02_checkSum_never_panics (v : View) (hb : v.b.size < 4294967296) : v.checkSumChk.Clean := by
-  rw [C02_checkSum_checked_eq v hb]; exact Out.clean_ok _
+`hbase` (second audit round): `check_sum` reinterprets the buffer as `&[u32]` (`slice::from_raw_parts`,
+headers.rs:39) without testing its alignment; the checked model now has `rawRef` there, so the statement
+needs the buffer to be dword aligned.  Every view that came out of a constructor is
+(`C02_checkSum_checked_eq_constructed`: `validate_headers` tests `image.as_ptr().aligned_to(4)`, pe.rs:778);
+for other `View` values the hypothesis is necessary (`C02_checkSum_needs_aligned_base`). -/
+theorem C02_checkSum_checked_eq (v : View) (hb : v.b.size < 4294967296) (hbase : v.img.base % 4 = 0) :
+    v.checkSumChk = .ok v.checkSum :=
+  checkSumChk_eq v hb hbase
 
-example : demo64File.b.size = 256 ∧ demo64File.checkSumChk = .ok 45333 ∧ demoView.checkSumChk = .ok demoView.checkSum := by
+/-- the guard of the constructor discharges the alignment: every constructed view, both formats, both
+kinds, any overridden base address (`set_base_address` changes `imageBase`, not the buffer) -/
+theorem C02_checkSum_checked_eq_constructed (f : Fmt) (k : Kind) (img : Img) (v : View)
+    (hv : fromBytes f k img = .ok v) (base : Nat) (hb : img.bytes.size < 4294967296) :
+    (v.setBase base).checkSumChk = .ok (v.setBase base).checkSum := by
+  obtain ⟨ha, rfl⟩ := (fromBytes_ok_iff _ _ _ _).1 hv
+  exact checkSumChk_eq _ hb ha.2.1
+
+theorem C02_checkSum_never_panics (v : View) (hb : v.b.size < 4294967296) (hbase : v.img.base % 4 = 0) :
+    v.checkSumChk.Clean := by
+  rw [C02_checkSum_checked_eq v hb hbase]; exact Out.clean_ok _
+
+/-- a `View` VALUE over a buffer at an odd address (no constructor returns one): the dword view is a
+misaligned `from_raw_parts` -/
+theorem C02_checkSum_needs_aligned_base :
+    (⟨⟨demo64Img.bytes, 2⟩, .pe64, .file, 0⟩ : View).checkSumChk =
+      .ub "headers.rs:39 slice::from_raw_parts(image.as_ptr() as *const u32, image.len() / 4)" ∧
+    fromBytes .pe64 .file ⟨demo64Img.bytes, 2⟩ = .err .misaligned :=
+  ⟨by decide +kernel, fromBytes_err_of_validate (by decide +kernel)⟩
+
+example : demo64File.b.size = 256 ∧ demo64File.img.base % 4 = 0 ∧ demo64File.checkSumChk = .ok 45333 ∧
+    demoView.checkSumChk = .ok demoView.checkSum ∧ (demoView.setBase 0x10000).checkSumChk = .ok demoView.checkSum := by
+  decide +kernel
+
+/-! ### `SectionHeaders::by_name` -/
+
+/-- the two index expressions of the copy loop `name_buf[i] = name[i]` (wrap/sections.rs:104) are in range
+for EVERY query (the length guard `name.len() > 8 → None` precedes the loop): the checked function —
+the one the `byname` driver runs — never panics and is the model's `byNameBytes` -/
+theorem C02_byNameBytes_checked_eq (secs : List Sec) (n : Bytes) :
+    byNameBytesChk secs n = .ok (byNameBytes secs n) :=
+  byNameBytesChk_eq secs n
+
+theorem C02_byNameBytes_never_panics (secs : List Sec) (n : Bytes) : (byNameBytesChk secs n).Clean := by
+  rw [C02_byNameBytes_checked_eq]; exact Out.clean_ok _
+
+/-- queries of length 0, 4, 8 (no padding left) and 9 (too long) on the two sections of `twoSecPe32`;
+the panicking primitive is live code (`pIndex`) -/
+example : byNameBytesChk (sections twoSecPe32) #[46, 98, 115, 115] = .ok (some 1) ∧
+    byNameBytesChk (sections twoSecPe32) #[46, 97] = .ok (some 0) ∧
+    byNameBytesChk (sections twoSecPe32) #[] = .ok none ∧
+    byNameBytesChk (sections twoSecPe32) #[46, 98, 115, 115, 0, 0, 0, 0] = .ok (some 1) ∧
+    byNameBytesChk (sections twoSecPe32) #[46, 98, 115, 115, 0, 0, 0, 0, 0] = .ok none ∧
+    byNameBytesChk (sections onePe64) #[46, 116] = .ok (some 0) ∧
+    pIndex "site" 8 8 = .panic "site" := by
   decide +kernel
 
 /-! ### typed reads (arithmetic, `&bytes[..len]`, `copy_from_slice`, and the unchecked accesses) -/
@@ -217,6 +265,15 @@ theorem C02_dervaSliceF_checked_eq (v : View) (a : Addr) (size align : Nat) (sto
     (ha : align < 18446744073709551616) :
     v.dervaSliceFChk a size align stop = v.dervaSliceF a size align stop :=
   v.dervaSliceFChk_eq a size align stop hb hsz hsa ha
+
+/-- the same loop driven by a STATEFUL callable (`F: FnMut`; `stop i x` = the answer of call `i`, made on
+element `i` of value `x` — `Model/Typed.lean:sliceFLoopI`): the `derva_slice_f` / `deref_slice_f` ops of
+the driver run this function -/
+theorem C02_dervaSliceFI_checked_eq (v : View) (a : Addr) (size align : Nat) (stop : Nat → Nat → Bool)
+    (hb : v.b.size < 4294967296) (hsz : size < 18446744073709551616) (hsa : size % align = 0)
+    (ha : align < 18446744073709551616) :
+    v.dervaSliceFIChk a size align stop = v.dervaSliceFI a size align stop :=
+  v.dervaSliceFIChk_eq a size align stop hb hsz hsa ha
 
 theorem C02_dervaSliceS_checked_eq (v : View) (a : Addr) (size align sentinel : Nat)
     (hb : v.b.size < 4294967296) (hsz : size < 18446744073709551616) (hsa : size % align = 0)
@@ -248,6 +305,12 @@ theorem C02_dervaSliceS_never_panics (v : View) (a : Addr) (size align sentinel 
     (v.dervaSliceSChk a size align sentinel).Clean := by
   rw [C02_dervaSliceS_checked_eq v a size align sentinel hb hsz hsa ha]
   exact C02_derva_slice_s v a size align sentinel hs hp
+theorem C02_dervaSliceFI_never_panics (v : View) (a : Addr) (size align : Nat) (stop : Nat → Nat → Bool)
+    (hb : v.b.size < 4294967296) (hs : 1 ≤ size) (hsz : size < 18446744073709551616) (hsa : size % align = 0)
+    (ha : align < 18446744073709551616) (hp : isPow2 align = true) :
+    (v.dervaSliceFIChk a size align stop).Clean := by
+  rw [C02_dervaSliceFI_checked_eq v a size align stop hb hsz hsa ha]
+  exact C02_derva_slice_fi v a size align stop hs hp
 theorem C02_dervaCStr_never_panics (v : View) (a : Addr) (hb : v.b.size < 4294967296) : (v.dervaCStrChk a).Clean := by
   rw [C02_dervaCStr_checked_eq v a hb]; exact C02_derva_cstr v a
 theorem C02_dervaWStr_never_panics (v : View) (a : Addr) : (v.dervaWStrChk a).Clean := by
